@@ -158,7 +158,9 @@ def run(res):
         (".equ e = v * 2\n.set v = 3\n .dw e\n.set v = 4\n .dw e, low(e)\n ldi r16, e\n", ("OK", "06000800080008e0"), "equ-over-set"),
         (".equ a = b + 1\n.equ b = v\n.set v = 1\n .dw a\n.set v = 9\n .dw a\n .dw a\n", ("OK", "02000a000a00"), "equ-chain-over-set"),
     ] + [
-        c for nm in ("xl", "XH", "yl", "YH", "zl", "ZH", "sreg", "SPL", "sph", "acc", "temp", "r_0", "pcl", "lo8")
+        c for nm in ("xl", "XH", "yl", "YH", "zl", "ZH", "sreg", "SPL", "sph", "acc", "temp", "r_0", "pcl", "lo8", "__SECOND__", "__MINUTE__", "__HOUR__",
+                     "__DAY__", "__MONTH__", "__YEAR__", "__CENTURY__", "__DATE__", "__TIME__", "__LINE__", "__FILE__", "__AVRASM_VERSION__", "__PART_NAME__",
+                     "__CORE_VERSION__", "__FLASH_SIZE__", "RAMEND", "FLASHEND", "E2END", "SRAM_START", "PORTB", "defined", "true", "false", "NULL")
         for c in ((".def %s = r20\n mov %s, r1\n" % (nm, nm), ("OK", "412d"), "conventional-name-def"),
                   (" mov %s, r1\n" % nm, ("ERR",), "conventional-name-undefined"),
                   (" ldi r16, %s\n" % nm, ("ERR",), "conventional-name-undefined"),
